@@ -86,6 +86,48 @@ fn divide<S: Sc>(lp: usize, ld: usize, concrete_d: Option<i64>, exact_multiple: 
     S::control("divide");
 }
 
+
+/// the same Euclidean identity under the ROUNDING MODEL (every +,-,*,/ of the division returns its exact result times
+/// (1+delta), |delta| <= 2^-53): large coefficients make the rounding residue of an eliminated leading term exceed the
+/// zero tolerance, the same power is then visited twice and the quotient must ACCUMULATE the correction.
+/// Dividend symbolic with coefficients up to 1e8, divisor seeded concrete (non-monic), default zero tolerance 1e-10.
+fn divide_rounded<S: Sc>(lp: usize, ld: usize, seed: i64) {
+    let mut g = Lcg::new(seed);
+    let d: Vec<S> = (0..ld).map(|i| S::lit(if i + 1 == ld { 3.0 } else { g.range_r(-4.0, 4.0, 2) })).collect();
+    // seeded sign pattern of the dividend's coefficients (magnitudes symbolic in [0.1, 1e8]): most intermediate
+    // results then have a definite sign and their rounding bound is linear
+    let p: Vec<S> = (0..lp).map(|k| if g.unit() < 0.5 { S::input(&format!("p{}", k), 0.1, 1e8) } else { S::input(&format!("p{}", k), -1e8, -0.1) }).collect();
+    S::rounding(true);
+    let res = poly_of(&p).divide(&poly_of(&d));
+    S::rounding(false);
+    S::prove("division-by-nonzero-polynomial-is-ok", S::b_const(res.is_ok()));
+    let (q, r) = match res {
+        Ok(x) => x,
+        Err(_) => return,
+    };
+    S::reach("divide-rounded");
+    let n = p.len();
+    let qc = coefs(&q, n + 1);
+    let rc = coefs(&r, n + 1);
+    for k in 0..n + 1 {
+        let want = if k < n { p[k] } else { S::lit(0.0) };
+        let got = conv(&qc, &d, k) + rc[k];
+        // backward error: a few units of roundoff of (|q||d| + |p|) per elimination step, plus the zero tolerance
+        let mut scale = want.sabs() + rc[k].sabs();
+        for i in 0..qc.len() {
+            if k >= i && k - i < d.len() {
+                scale = scale + (qc[i] * d[k - i]).sabs();
+            }
+        }
+        let bound = scale * S::lit(64.0 * 2.220446049250313e-16 * (n as f64 + 1.0)) + S::lit(1e-8);
+        S::prove_m("dividend-equals-quotient-times-divisor-plus-remainder-up-to-roundoff", S::b_le((got - want).sabs(), bound), S::b_gt((got - want).sabs(), bound * S::lit(100.0) + S::lit(1e-3)));
+    }
+    if ld >= 2 {
+        S::prove("remainder-degree-below-divisor-degree", S::b_const(r.order() + 1 < ld || r.order() == 0));
+    }
+    S::prove("quotient-degree", S::b_const(n < ld || q.order() == n - ld));
+}
+
 /// constant divisor scales; zero divisor is an error
 fn constant_divisor<S: Sc>(lp: usize) {
     let p = inputs::<S>("p", lp, -CB, CB);
@@ -145,7 +187,8 @@ fn divide_complex<S: Sc>(lp: usize, ld: usize, seed: i64) {
 pub fn run(pr: &mut PropRun, t: &Tier) {
     pr.funcs(&["Polynomial::divide", "Polynomial::{add_assign,sub_assign,purge_leading,with_tolerance,from_iter}"]);
     pr.bound("dividend and divisor fully symbolic (|lead| >= 0.1, box [-10,10]) up to degree 6/3 (quick) 8/4 (thorough); symbolic dividend x seeded concrete divisor up to degree 12/8 (quick) 40/32 (thorough; at most 9 elimination steps); exact multiples q*d with symbolic q; constant and zero divisors; complex dividend x concrete complex divisor");
-    pr.outside("rounding of symbolic operations (backward-error bound is checked with tolerance 1e-8 in exact arithmetic)");
+    pr.bound("ROUNDING MODEL harnesses (every +,-,*,/ inside divide returns exact*(1+delta), |delta| <= 2^-53, delta a function of the exact result): dividend symbolic with coefficients up to 1e8, seeded concrete non-monic divisor, lengths 3/2 and 4/3 (quick), also 4/2 (thorough): Euclidean identity up to 64 (n+1) eps (|q||d|+|p|+|r|) + 1e-8");
+    pr.outside("rounding of symbolic operations in the other harnesses (exact arithmetic, tolerance 1e-8); overflow, underflow and subnormal results in the rounding-model harnesses");
     let sym_sizes: Vec<(usize, usize)> = if t.thorough { vec![(2, 2), (4, 2), (5, 3), (7, 4), (9, 5), (2, 4)] } else { vec![(2, 2), (4, 2), (5, 3), (7, 4), (2, 4)] };
     for (lp, ld) in sym_sizes {
         let mut cfg = t.cfg(&format!("C12:divide(len {}/{})", lp, ld));
@@ -168,6 +211,12 @@ pub fn run(pr: &mut PropRun, t: &Tier) {
         let mut cfg = t.cfg(&format!("C12:exact-multiple(q len {}, d len {},concrete-divisor)", lq, ld));
         cfg.max_decisions = 300;
         run_h!(pr, cfg, divide, lq, ld, Some(t.seed * 7 + 3), true);
+    }
+    for (lp, ld) in (if t.thorough { vec![(3usize, 2usize), (4, 2), (4, 3)] } else { vec![(3usize, 2usize), (4, 3)] }) {
+        let mut cfg = t.cfg(&format!("C12:divide-rounded(len {}/{})", lp, ld));
+        cfg.max_decisions = 400;
+        cfg.max_paths = 400;
+        run_h!(pr, cfg, divide_rounded, lp, ld, t.seed * 3 + lp as i64);
     }
     for lp in [1usize, 4] {
         run_h!(pr, t.cfg(&format!("C12:constant-divisor(len {})", lp)), constant_divisor, lp);
